@@ -1,3 +1,3 @@
 -- native model driver for the orienteering family (ops `op.*`); no Mathlib anywhere below this import
 import Rl4co.Driver.Op
-def main : IO Unit := Rl4co.Proto.runDriver Rl4co.Driver.Op.handlers
+def main : IO Unit := Rl4co.Proto.runDriver Rl4co.Driver.Op.handlers1
